@@ -440,10 +440,16 @@ func Main(t *testing.T, world string, props map[string]PropertyFn) {
 		if rf.FromSeed {
 			tape = NewSearchTape(rf.Seed)
 		}
+		if os.Getenv("VERIF_TRACE_TAPE") != "" {
+			tape.SetTrace(true)
+		}
 		st := time.Now()
 		x := runOnce(t, world, prop, fn, rf.Seed, tape, tier, true)
 		r := x.result()
 		r.Trace = x.trace
+		if os.Getenv("VERIF_TRACE_TAPE") != "" {
+			r.Sample = tape.Labels
+		}
 		r.WallMs = time.Since(st).Milliseconds()
 		emit(r)
 		return
